@@ -208,7 +208,7 @@ def extract_factory(model, consts):
 
 
 # ---------------------------------------------------------------------------------- per class
-def build_class(model, consts, cls):
+def build_class(model, consts, cls, allow_unmodelled=False):
     c = model.classes[cls]
     ff = [f for f in model.flat_fields(cls)]
     fields = []
@@ -279,15 +279,24 @@ def build_class(model, consts, cls):
 
     rm = c['methods']['read']
     wm = c['methods']['write']
-    if cls == 'ObjectHeaderBase':
-        r = [fixs(x) for x in ohb_read(Ctx(model, cls, cls, '', stream_of(rm)), rm)]
-    else:
-        r = [fixs(x) for x in proc_body(Ctx(model, cls, cls, '', stream_of(rm)), rm['body'].get('inner', []))]
-    w = [fixs(x) for x in proc_body(Ctx(model, cls, cls, '', stream_of(wm)), wm['body'].get('inner', []))]
-    sz = model.find_method(cls, 'calculateObjectSize')
-    hs = model.find_method(cls, 'calculateHeaderSize')
-    size = simp(fix(fun_value(Ctx(model, cls, sz[0], '', None), sz[1])))
-    hsize = simp(fix(fun_value(Ctx(model, cls, hs[0], '', None), hs[1])))
+    unmodelled = None
+    try:
+        if cls == 'ObjectHeaderBase':
+            r = [fixs(x) for x in ohb_read(Ctx(model, cls, cls, '', stream_of(rm)), rm)]
+        else:
+            r = [fixs(x) for x in proc_body(Ctx(model, cls, cls, '', stream_of(rm)), rm['body'].get('inner', []))]
+        w = [fixs(x) for x in proc_body(Ctx(model, cls, cls, '', stream_of(wm)), wm['body'].get('inner', []))]
+        sz = model.find_method(cls, 'calculateObjectSize')
+        hs = model.find_method(cls, 'calculateHeaderSize')
+        size = simp(fix(fun_value(Ctx(model, cls, sz[0], '', None), sz[1])))
+        hsize = simp(fix(fun_value(Ctx(model, cls, hs[0], '', None), hs[1])))
+    except Unsupported as e:
+        # the bodies are outside the grammar: no model of this class, but the harness can still create, fill and dump it,
+        # so that the implementation-only oracles keep searching for a failing input
+        if not allow_unmodelled:
+            raise
+        unmodelled = str(e)
+        r, w, size, hsize = [], [], ('const', 0), ('const', 0)
     def eflds(e, acc):
         if isinstance(e, tuple):
             if e[0] in ('fld', 'bsize'):
@@ -318,7 +327,7 @@ def build_class(model, consts, cls):
     ctor_type = dfl.get('objectType')
     notes = [k for k in dfl if k.startswith('#')]
     return {'name': cls, 'fields': finfo, 'read': r, 'write': w, 'size': size, 'hsize': hsize,
-            'ctorType': ctor_type, 'notes': notes, 'shapeFields': sorted(shape)}
+            'ctorType': ctor_type, 'notes': notes, 'shapeFields': sorted(shape), 'unmodelled': unmodelled}
 
 
 def layout_hint(ci):
@@ -519,9 +528,14 @@ def main():
               and 'read' in m.classes[c]['methods'] and 'write' in m.classes[c]['methods'] and c not in HEADER_CLASSES]
     # classes created by the factory but without own read/write (e.g. aliases) are reported
     built = []
+    unmodelled = []
     for cls in objcls:
         try:
-            ci = build_class(m, consts, cls)
+            ci = build_class(m, consts, cls, allow_unmodelled=True)
+            if ci['unmodelled']:
+                summary['untranslated'][cls] = ci['unmodelled']
+                unmodelled.append(ci)
+                continue
             # every emitter call must succeed, otherwise the class is untranslated
             lay = layout_hint(ci)
             txt = lean_class(ci, lay)
@@ -569,7 +583,7 @@ def main():
         f.write('end Blf.Gen\n')
     # --- C++
     NR = 8
-    allc = [b[0] for b in built]
+    allc = [b[0] for b in built] + unmodelled
     for k in range(NR):
         with open(os.path.join(a.cpp, 'gen_reflect_%d.cpp' % k), 'w') as f:
             f.write(cpp_reflect(allc[k::NR], k))
@@ -585,6 +599,9 @@ def main():
                                    'ctorType': ci['ctorType'], 'notes': ci['notes'],
                                    'layout': lay, 'shapeFields': ci['shapeFields']})
         (summary['regular'] if lay else summary['irregular']).append(ci['name'])
+    for ci in unmodelled:
+        summary['classes'].append({'name': ci['name'], 'chunk': 0, 'fields': ci['fields'], 'regular_hint': False, 'ctorType': ci['ctorType'],
+                                   'notes': ci['notes'], 'layout': None, 'shapeFields': [], 'modelled': False})
     summary['factory'] = {str(k): v for k, v in (factory or {}).items()}
     summary['objectType'] = getattr(consts, 'objecttype', [])
     summary['ohbLoopHash'] = getattr(m, 'ohb_loop_hash', '')
